@@ -46,6 +46,14 @@ func VerifC17dClient() {
 	args.ConnectionsPerCPU = 1
 	args.Quiet = true
 	args.TrustAllHosts = verifrt.Bool("trust-all-hosts")
+	// the switch the integration tests run under (known hosts file and key in the
+	// working directory): the trust decision is the same
+	if verifrt.Bool("integration-test-run-mode") {
+		os.Setenv("DTAIL_INTEGRATION_TEST_RUN_MODE", "yes")
+		verifrt.Reach("test-run-mode")
+	} else {
+		os.Unsetenv("DTAIL_INTEGRATION_TEST_RUN_MODE")
+	}
 	if verifrt.Bool("key-file-given") {
 		args.SSHPrivateKeyFilePath = "/home/u/key"
 		verifrt.Reach("with-key-file")
